@@ -152,6 +152,41 @@ def rule_A(run, prog):
     ok = "data[:, 1:] = self.data" in st and "data[:, 1] = self.data" in st and st.count("data[:, 0] = axis.data") == 2
     run.obligation(rid, "DataSaveable._data_with_axis", ok, key="pack",
                    message="axis must be packed as column 0 and the data as the remaining columns", loc=p.loc())
+    # the packed table must be able to hold the data: a narrower element type silently drops the
+    # imaginary part (numpy only warns) and the file still loads
+    packed = {s_.targets[0].value.id for s_ in ast.walk(p.node) if isinstance(s_, ast.Assign)
+              and isinstance(s_.targets[0], ast.Subscript) and isinstance(s_.targets[0].value, ast.Name)
+              and norm(s_.value) == "self.data"}
+    allocs = [s_ for s_ in ast.walk(p.node) if isinstance(s_, ast.Assign) and isinstance(s_.targets[0], ast.Name)
+              and s_.targets[0].id in packed and isinstance(s_.value, ast.Call)]
+    if len(allocs) < 2:
+        raise AnalysisError("_data_with_axis: expected two allocations of the packed table, found %d" % len(allocs))
+
+    def _holds_data(expr, depth=0):
+        tx = norm(expr)
+        if tx in ("self.data.dtype", "self._data.dtype", "COMPLEX", "complex", "numpy.complex128", "qr.COMPLEX"):
+            return True
+        if isinstance(expr, ast.Call) and call_name(expr) in ("result_type", "promote_types", "find_common_type"):
+            return any("self.data" in norm(a) or "self._data" in norm(a) for a in ast.walk(expr) if isinstance(a, ast.Attribute))
+        if isinstance(expr, ast.Name) and depth < 3:
+            binds = [n for n in ast.walk(p.node) if isinstance(n, ast.Assign) and any(
+                isinstance(t_, ast.Name) and t_.id == expr.id for t_ in n.targets)]
+            return bool(binds) and all(_holds_data(b.value, depth + 1) for b in binds)
+        return False
+    for a_ in allocs:
+        cn = call_name(a_.value)
+        if cn in ("column_stack", "hstack", "concatenate", "stack"):
+            ok = True      # numpy promotes to a common type
+            dt = "promoted"
+        else:
+            kw = [k.value for k in a_.value.keywords if k.arg == "dtype"]
+            dt = norm(kw[0]) if kw else None
+            ok = bool(kw) and _holds_data(kw[0])
+        run.obligation(rid, "DataSaveable._data_with_axis", ok, key="pack-dtype:" + norm(a_.value.args[0] if a_.value.args else a_.value)[:20]
+                       + ":%d" % allocs.index(a_),
+                       message="the packed table is allocated with element type %s, which is not derived from the "
+                               "data: complex data lose their imaginary part on export" % dt, loc=p.loc(a_),
+                       sample={"allocation": norm(a_)[:80]})
     x = cls.methods["_extract_data_with_axis"]
     st = [norm(s) for s in ast.walk(x.node) if isinstance(s, ast.stmt)]
     ok = st.count("axis.data = data[:, 0]") == 2 and "return data[:, 1]" in st and "return data[:, 1:]" in st
